@@ -171,7 +171,7 @@ def nontrivial(chk, p, r, m):
 
 
 def run(chk):
-    n = 600 if chk.tier == "quick" else 30000
+    n = 1500 if chk.tier == "quick" else 30000
     chk.rule = ("valid random projects + 1-2 structural mutations (field deletion, type confusion, empty/non-ASCII/unclosed strings, empty lists and "
                 "names, parent cycles, self includes, duplicates, unknown references, sources without extension/rule, bad expressions, variable "
                 "cycles, missing download rules, malformed -s/-d/-D) through the real CLI (10 s timeout); oracle: exit status 0/1/2 with a "
